@@ -16,6 +16,7 @@ Fixpoint rebase (dc ds dn : Z) (first_line : bool) (ops : list op) : list op :=
     OMap (if first_line then gc + dc else gc) (si + ds) ol oc
          (match nm with Some n => Some (n + dn) | None => None end)
       :: rebase dc ds dn first_line r
+  | ONull gc :: r => ONull (if first_line then gc + dc else gc) :: rebase dc ds dn first_line r
   end.
 
 (* byte offset of the first name VLQ in the builder's buffer (firstNameOffset) *)
@@ -31,6 +32,9 @@ Fixpoint first_name_off (ops : list op) (lastByte : Z) (prev : state) (base : na
     | Some o => Some (base + Z.to_nat o)%nat
     | None => first_name_off r (last seg lastByte) prev' (base + length seg)%nat
     end
+  | ONull gc :: r =>
+    first_name_off r (last (null_seg lastByte prev gc) lastByte) (null_state prev gc)
+                   (base + length (null_seg lastByte prev gc))%nat
   end.
 
 Definition ebytes (ops : list op) (lb : Z) (prev : state) : bytes := fst (fst (emit ops lb prev)).
@@ -63,6 +67,13 @@ Proof.
   unfold ebytes. cbn [emit]. destruct (next_state p gc si ol oc nm) as [cur prev'].
   destruct (emit r _ prev') as [[b l] s]. reflexivity.
 Qed.
+
+Lemma null_seg_eq lb p gc : null_seg lb p gc = (if sepb lb then [COMMA] else []) ++ encodeVLQ (gc - gcol p).
+Proof. reflexivity. Qed.
+
+Lemma ebytes_null gc r lb p :
+  ebytes (ONull gc :: r) lb p = null_seg lb p gc ++ ebytes r (last (null_seg lb p gc) lb) (null_state p gc).
+Proof. unfold ebytes. cbn [emit]. destruct (emit r _ (null_state p gc)) as [[b l] s]. reflexivity. Qed.
 
 Lemma seg_none lb p gc si ol oc :
   fst (appendMapping lb p (mkState (gline p) gc si ol oc 0 false) false) = seg4 lb p gc si ol oc.
@@ -104,7 +115,8 @@ Qed.
 
 Lemma ebytes_lb ops lb1 lb2 p : sepb lb1 = sepb lb2 -> ebytes ops lb1 p = ebytes ops lb2 p.
 Proof.
-  intro H. destruct ops as [|[|gc si ol oc [n|]] r].
+  intro H. destruct ops as [|[|gc si ol oc [n|]|gc] r].
+  5:{ rewrite !ebytes_null, !null_seg_eq, H. f_equal. f_equal. apply last_app_ne, encodeVLQ_nonempty. }
   - reflexivity.
   - rewrite !ebytes_newline. reflexivity.
   - rewrite !ebytes_map_some. unfold seg4. rewrite H. f_equal. f_equal. f_equal.
@@ -137,7 +149,7 @@ Lemma ebytes_irrel : forall ops lb p q,
   ebytes ops lb p = ebytes ops lb q.
 Proof.
   induction ops as [|o ops IH]; intros lb p q H1 H2 H3 H4 H5; [reflexivity|].
-  destruct o as [|gc si ol oc [n|]].
+  destruct o as [|gc si ol oc [n|]|gc].
   - rewrite !ebytes_newline. f_equal. apply IH; cbn; congruence.
   - rewrite !ebytes_map_some.
     assert (E : seg4 lb p gc si ol oc = seg4 lb q gc si ol oc) by (unfold seg4; congruence).
@@ -145,6 +157,7 @@ Proof.
   - rewrite !ebytes_map_none.
     assert (E : seg4 lb p gc si ol oc = seg4 lb q gc si ol oc) by (unfold seg4; congruence).
     rewrite E. f_equal. apply IH; cbn; congruence.
+  - rewrite !ebytes_null, !null_seg_eq, H1. f_equal. apply IH; cbn; congruence.
 Qed.
 
 Definition shifted (p : state) (fl : bool) (dc ds : Z) (q : Z) (l : Z) (h : bool) : state :=
@@ -175,7 +188,27 @@ Lemma rebase_bytes : forall ops lb p base,
 Proof.
   induction ops as [|o ops IH]; intros lb p base.
   - cbn [first_name_off]. intros. reflexivity.
-  - destruct o as [|gc si ol oc [n|]].
+  - destruct o as [|gc si ol oc [n|]|gc].
+    4:{ (* mapping without original position *)
+      cbn [first_name_off].
+      set (st1 := null_state p gc). set (sg := null_seg lb p gc). set (lb1 := last sg lb).
+      assert (Hsg : forall fl dc ds q l h,
+                 null_seg lb (shifted p fl dc ds q l h) (if fl then gc + dc else gc) = sg).
+      { intros. subst sg. rewrite !null_seg_eq. unfold shifted. cbn [gcol]. f_equal. f_equal. destruct fl; lia. }
+      specialize (IH lb1 st1 (base + length sg)%nat).
+      destruct (first_name_off ops lb1 st1 _) as [off|].
+      * destruct IH as (pre & n' & post & Ho & H1 & H2).
+        exists (sg ++ pre), n', post.
+        split; [rewrite app_length; lia|]. split.
+        { rewrite ebytes_null. fold sg lb1 st1. rewrite H1. subst st1. cbn [null_state oname]. rewrite <- app_assoc. reflexivity. }
+        intros dc ds dn fl q l h. cbn [rebase]. rewrite ebytes_null, Hsg.
+        rewrite <- app_assoc. f_equal. fold lb1.
+        rewrite <- (H2 dc ds dn fl q l false).
+        apply ebytes_irrel; unfold shifted, st1, null_state; cbn; try reflexivity; destruct fl; lia.
+      * intros dc ds dn fl q l h. cbn [rebase]. rewrite !ebytes_null, Hsg. f_equal.
+        fold sg lb1 st1.
+        rewrite <- (IH dc ds dn fl q l false).
+        apply ebytes_irrel; unfold shifted, st1, null_state; cbn; try reflexivity; destruct fl; lia. }
     + (* newline *)
       cbn [first_name_off]. fold (nl_state p).
       specialize (IH SEMI (nl_state p) (S base)).
@@ -581,10 +614,12 @@ Lemma emit_app : forall a b lb p,
 Proof.
   induction a as [|o a IH]; intros b lb p.
   - cbn [app emit]. destruct (emit b lb p) as [[bb lbb] sb]. reflexivity.
-  - destruct o as [|gc si ol oc nm]; cbn [app emit].
+  - destruct o as [|gc si ol oc nm|gc]; cbn [app emit].
     + rewrite IH. destruct (emit a SEMI _) as [[ba lba] sa]. destruct (emit b lba sa) as [[bb lbb] sb]. reflexivity.
     + destruct (next_state p gc si ol oc nm) as [cur prev'].
       rewrite IH. destruct (emit a _ prev') as [[ba lba] sa]. destruct (emit b lba sa) as [[bb lbb] sb].
+      rewrite app_assoc. reflexivity.
+    + rewrite IH. destruct (emit a _ (null_state p gc)) as [[ba lba] sa]. destruct (emit b lba sa) as [[bb lbb] sb].
       rewrite app_assoc. reflexivity.
 Qed.
 
